@@ -576,52 +576,72 @@ FLOORS = {
                      'uni:first-input:bytes-noends': 44, 'uni:first-input:bytesio': 36,
                      'uni:first-input:str-doc': 39, 'uni:first-input:text-file': 39}},
     'thorough': {'nontrivial': 2500000,
-        'monitors': {'K.codec': 9800000, 'M.codec': 3500000, 'M.codec-str': 2600000, 'M.doc': 360000, 'M.fmt': 67000,
-                     'M.fmt-parsed': 59000, 'M.fmt-parsed-value': 1800000, 'M.license': 700000,
-                     'M.license-enc': 700000, 'M.list': 500000, 'M.list-doc': 530000, 'M.list-kept': 500000,
-                     'M.list-reassigned': 500000, 'M.list-reparsed': 500000, 'M.multi': 7900, 'M.multi-doc': 22000,
-                     'M.multi-value': 800000, 'M.nonstrict': 150000, 'M.nonstrict-value': 2900000, 'M.para': 1400000,
-                     'M.perm': 230000, 'M.perm-fixpoint': 230000, 'M.perm-para': 1100000, 'M.perm-value': 5100000,
-                     'M.second-round': 67000, 'M.second-round-value': 1000000, 'M.value': 7000000,
-                     'M.watch': 19000000},
-        'counters': {'codec:enumerated': 16105, 'fact:decoy-files': 15000, 'fact:decoy-header': 32000,
-                     'fact:decoy-license': 15000, 'fact:early-reads': 180000, 'fact:files-paragraphs>=2': 190000,
-                     'fact:late-after-first-dump': 18000, 'fact:late-assignment': 46000, 'fact:late:comment': 20000,
-                     'fact:late:files': 4000, 'fact:late:header': 27000, 'fact:late:license': 20000,
-                     'fact:license-created-before-a-files-paragraph': 96000,
+        'monitors': {'K.codec': 10000000, 'M.allforms': 84000, 'M.allforms-value': 1400000, 'M.codec': 3700000,
+                     'M.codec-str': 2700000, 'M.doc': 380000, 'M.fmt': 67000, 'M.fmt-parsed': 59000,
+                     'M.fmt-parsed-value': 1800000, 'M.license': 750000, 'M.license-enc': 750000, 'M.list': 540000,
+                     'M.list-doc': 570000, 'M.list-kept': 540000, 'M.list-reassigned': 540000,
+                     'M.list-reparsed': 540000, 'M.multi': 7900, 'M.multi-doc': 22000, 'M.multi-value': 800000,
+                     'M.nonstrict': 160000, 'M.nonstrict-value': 3100000, 'M.para': 1500000, 'M.perm': 240000,
+                     'M.perm-fixpoint': 240000, 'M.perm-para': 1100000, 'M.perm-value': 5300000, 'M.raw': 28000,
+                     'M.raw-value': 2000000, 'M.second-round': 67000, 'M.second-round-value': 1000000,
+                     'M.value': 7400000, 'M.watch': 19000000},
+        'counters': {'codec:enumerated': 16105, 'codec:uni-astral': 32000,
+                     'codec:uni-casefold-differs-from-lower': 51000, 'codec:uni-cjk-compatibility': 32000,
+                     'codec:uni-combining-mark': 70000, 'codec:uni-hangul-jamo': 32000,
+                     'codec:uni-inner-unicode-blank': 37000, 'codec:uni-invisible': 40000,
+                     'codec:uni-ligature-fullwidth-superscript': 41000, 'codec:uni-nfkc-differs': 110000,
+                     'codec:uni-not-nfc': 100000, 'codec:uni-not-nfd': 100000, 'codec:uni-singleton': 49000,
+                     'codec:uni-utf8-byte-0x85': 51000, 'codec:uni-utf8-byte-0xa0': 47000, 'fact:decoy-files': 15000,
+                     'fact:decoy-header': 32000, 'fact:decoy-license': 15000, 'fact:early-reads': 190000,
+                     'fact:files-paragraphs>=2': 190000, 'fact:late-after-first-dump': 18000,
+                     'fact:late-assignment': 46000, 'fact:late:comment': 20000, 'fact:late:files': 4000,
+                     'fact:late:header': 27000, 'fact:late:license': 20000,
+                     'fact:license-created-before-a-files-paragraph': 98000,
                      'fact:license-paragraphs-fully-equal': 21000,
                      'fact:license-paragraphs-with-equal-synopsis': 42000,
-                     'fact:license-paragraphs-with-equal-text': 32000,
+                     'fact:license-paragraphs-with-equal-text': 33000,
                      'fact:license-paragraphs-with-synopsis-equal-ignoring-case': 3800,
-                     'fact:license-paragraphs:2': 63000, 'fact:license-paragraphs:3': 57000,
+                     'fact:license-paragraphs:2': 67000, 'fact:license-paragraphs:3': 57000,
                      'fact:license-paragraphs:4': 5600, 'fact:license-paragraphs:5': 5700,
                      'fact:license-paragraphs>=2': 130000, 'fact:own-header-object': 31000,
                      'fact:reused-license-object': 50000, 'feat:common-indent': 110000, 'feat:contact-multi': 100000,
-                     'feat:contact-single': 68000, 'feat:empty-line': 300000,
-                     'feat:files-added-after-license': 150000, 'feat:files-list>120': 100000,
-                     'feat:files-list>80': 180000, 'feat:files-multi': 260000, 'feat:files-paragraph': 290000,
-                     'feat:files-single': 120000, 'feat:header-license': 81000, 'feat:indent': 320000,
-                     'feat:license-paragraph': 240000, 'feat:non-ascii': 340000, 'feat:pattern-hyphen': 260000,
-                     'feat:pattern>80': 95000, 'feat:punct-files-at-first-entry': 100000,
-                     'feat:punct-files-at-last-entry': 90000, 'feat:punct-files-at-middle-entry': 130000,
-                     'feat:punct-files-at-only-entry': 25000, 'feat:punct-files-fullwidth-separator': 10000,
-                     'feat:punct-files-internal-comma': 57000, 'feat:punct-files-internal-semicolon': 4100,
-                     'feat:punct-files-leading-comma': 6000, 'feat:punct-files-leading-other': 140000,
-                     'feat:punct-files-leading-semicolon': 3100, 'feat:punct-files-only-punctuation': 110000,
-                     'feat:punct-files-quote': 10000, 'feat:punct-files-trailing-backslash': 50000,
-                     'feat:punct-files-trailing-colon': 5200, 'feat:punct-files-trailing-comma': 12000,
-                     'feat:punct-files-trailing-dot': 52000, 'feat:punct-files-trailing-other': 65000,
-                     'feat:punct-files-trailing-semicolon': 7000, 'feat:punct-lines-at-first-entry': 110000,
-                     'feat:punct-lines-at-last-entry': 110000, 'feat:punct-lines-at-middle-entry': 80000,
-                     'feat:punct-lines-at-only-entry': 75000, 'feat:punct-lines-fullwidth-separator': 7000,
-                     'feat:punct-lines-internal-comma': 79000, 'feat:punct-lines-internal-semicolon': 13000,
-                     'feat:punct-lines-leading-comma': 9300, 'feat:punct-lines-leading-other': 82000,
-                     'feat:punct-lines-leading-semicolon': 2700, 'feat:punct-lines-only-punctuation': 32000,
-                     'feat:punct-lines-quote': 22000, 'feat:punct-lines-trailing-backslash': 12000,
-                     'feat:punct-lines-trailing-colon': 9800, 'feat:punct-lines-trailing-comma': 19000,
-                     'feat:punct-lines-trailing-dot': 21000, 'feat:punct-lines-trailing-other': 140000,
-                     'feat:punct-lines-trailing-semicolon': 6900, 'feat:reassigned': 250000,
-                     'feat:set-then-clear': 70000, 'feat:tab': 260000, 'feat:trailing-blank': 320000,
+                     'feat:contact-single': 73000, 'feat:empty-line': 320000,
+                     'feat:files-added-after-license': 160000, 'feat:files-list>120': 110000,
+                     'feat:files-list>80': 180000, 'feat:files-multi': 270000, 'feat:files-paragraph': 310000,
+                     'feat:files-single': 120000, 'feat:header-license': 86000, 'feat:indent': 340000,
+                     'feat:license-paragraph': 250000, 'feat:marker-blank+tab': 10000,
+                     'feat:marker-blanks>=2': 10000, 'feat:marker-blanks>=4': 13000,
+                     'feat:marker-dot-after-odd-marker': 9400, 'feat:marker-mixed-blanks-and-tabs': 15000,
+                     'feat:marker-on-last-line': 20000, 'feat:marker-one-tab': 6100, 'feat:marker-tab+blank': 10000,
+                     'feat:marker-tabs>=2': 6000, 'feat:marker-with-empty-first-line': 13000,
+                     'feat:marker-with-inner-tab': 10000, 'feat:marker-with-trailing-blank-or-tab': 19000,
+                     'feat:non-ascii': 360000, 'feat:pattern-hyphen': 270000, 'feat:pattern>80': 97000,
+                     'feat:punct-files-at-first-entry': 100000, 'feat:punct-files-at-last-entry': 94000,
+                     'feat:punct-files-at-middle-entry': 140000, 'feat:punct-files-at-only-entry': 27000,
+                     'feat:punct-files-fullwidth-separator': 11000, 'feat:punct-files-internal-comma': 58000,
+                     'feat:punct-files-internal-semicolon': 4100, 'feat:punct-files-leading-comma': 6000,
+                     'feat:punct-files-leading-other': 150000, 'feat:punct-files-leading-semicolon': 3100,
+                     'feat:punct-files-only-punctuation': 120000, 'feat:punct-files-quote': 10000,
+                     'feat:punct-files-trailing-backslash': 51000, 'feat:punct-files-trailing-colon': 5200,
+                     'feat:punct-files-trailing-comma': 12000, 'feat:punct-files-trailing-dot': 53000,
+                     'feat:punct-files-trailing-other': 70000, 'feat:punct-files-trailing-semicolon': 7000,
+                     'feat:punct-lines-at-first-entry': 110000, 'feat:punct-lines-at-last-entry': 110000,
+                     'feat:punct-lines-at-middle-entry': 83000, 'feat:punct-lines-at-only-entry': 79000,
+                     'feat:punct-lines-fullwidth-separator': 7200, 'feat:punct-lines-internal-comma': 80000,
+                     'feat:punct-lines-internal-semicolon': 13000, 'feat:punct-lines-leading-comma': 9300,
+                     'feat:punct-lines-leading-other': 86000, 'feat:punct-lines-leading-semicolon': 2700,
+                     'feat:punct-lines-only-punctuation': 33000, 'feat:punct-lines-quote': 22000,
+                     'feat:punct-lines-trailing-backslash': 12000, 'feat:punct-lines-trailing-colon': 9800,
+                     'feat:punct-lines-trailing-comma': 19000, 'feat:punct-lines-trailing-dot': 21000,
+                     'feat:punct-lines-trailing-other': 150000, 'feat:punct-lines-trailing-semicolon': 6900,
+                     'feat:reassigned': 260000, 'feat:set-then-clear': 70000, 'feat:tab': 280000,
+                     'feat:trailing-blank': 340000, 'feat:uni-astral': 14000,
+                     'feat:uni-casefold-differs-from-lower': 18000, 'feat:uni-cjk-compatibility': 15000,
+                     'feat:uni-combining-mark': 19000, 'feat:uni-hangul-jamo': 15000,
+                     'feat:uni-inner-unicode-blank': 15000, 'feat:uni-invisible': 16000,
+                     'feat:uni-ligature-fullwidth-superscript': 17000, 'feat:uni-nfkc-differs': 20000,
+                     'feat:uni-not-nfc': 20000, 'feat:uni-not-nfd': 20000, 'feat:uni-singleton': 18000,
+                     'feat:uni-utf8-byte-0x85': 18000, 'feat:uni-utf8-byte-0xa0': 17000,
                      'feat:url-comment-fragment': 12000, 'feat:url-comment-http': 16000,
                      'feat:url-comment-https': 9300, 'feat:url-comment-inner-lead>=2': 11000,
                      'feat:url-comment-inner-trailing-blank': 10000, 'feat:url-comment-multi-line': 16000,
@@ -649,19 +669,19 @@ FLOORS = {
                      'fmt:assign-late-after-first-dump:dep5-historical': 1300,
                      'fmt:assign-late-after-first-dump:fixable-known': 1200,
                      'fmt:assign-late-after-first-dump:near-known': 1800,
-                     'fmt:assign-late-after-first-dump:non-url': 700,
+                     'fmt:assign-late-after-first-dump:non-url': 690,
                      'fmt:assign-late-after-first-dump:unknown-url': 1300, 'fmt:assign-late:canonical': 550,
                      'fmt:assign-late:dep5-historical': 1300, 'fmt:assign-late:fixable-known': 1200,
                      'fmt:assign-late:near-known': 1800, 'fmt:assign-late:non-url': 670,
                      'fmt:assign-late:unknown-url': 1300, 'fmt:assign:canonical': 3800,
-                     'fmt:assign:dep5-historical': 8900, 'fmt:assign:fixable-known': 8500,
-                     'fmt:assign:near-known': 12000, 'fmt:assign:non-url': 4600, 'fmt:assign:unknown-url': 8800,
+                     'fmt:assign:dep5-historical': 8900, 'fmt:assign:fixable-known': 8600,
+                     'fmt:assign:near-known': 12000, 'fmt:assign:non-url': 4600, 'fmt:assign:unknown-url': 8900,
                      'fmt:assigned-spelling-rewritten-on-reparse': 9700, 'fmt:class:canonical': 11000,
                      'fmt:class:dep5-historical': 24000, 'fmt:class:fixable-known': 23000,
                      'fmt:class:near-known': 31000, 'fmt:class:non-url': 13000, 'fmt:class:unknown-url': 24000,
                      'fmt:data:canonical': 1100, 'fmt:data:dep5-historical': 2600, 'fmt:data:fixable-known': 2500,
                      'fmt:data:near-known': 3600, 'fmt:data:non-url': 1300, 'fmt:data:unknown-url': 2700,
-                     'fmt:decoy-header:canonical': 980, 'fmt:decoy-header:dep5-historical': 2400,
+                     'fmt:decoy-header:canonical': 990, 'fmt:decoy-header:dep5-historical': 2400,
                      'fmt:decoy-header:fixable-known': 2200, 'fmt:decoy-header:near-known': 3300,
                      'fmt:decoy-header:non-url': 1100, 'fmt:decoy-header:unknown-url': 2300, 'fmt:documents': 67000,
                      'fmt:enumerated': 730, 'fmt:how:assign': 43000, 'fmt:how:assign-late': 6900,
@@ -677,40 +697,87 @@ FLOORS = {
                      'fmt:parsed:near-known': 11000, 'fmt:parsed:non-url': 4400, 'fmt:parsed:unknown-url': 8500,
                      'fmt:rewritten-at-construction': 2500, 'fmt:rewritten-when-parsed': 10000,
                      'fmt:url:fragment': 15000, 'fmt:url:http': 42000, 'fmt:url:https': 43000,
-                     'fmt:url:no-trailing-slash': 41000, 'fmt:url:other-scheme': 8600, 'fmt:url:query': 24000,
-                     'fmt:url:trailing-slash': 48000, 'input:bytes': 90000, 'input:keepends': 90000,
-                     'input:noends': 90000, 'input:stringio': 90000, 'lic:common-indent': 94000,
+                     'fmt:url:no-trailing-slash': 41000, 'fmt:url:other-scheme': 8400, 'fmt:url:query': 24000,
+                     'fmt:url:trailing-slash': 48000, 'input:bytes': 91000, 'input:keepends': 91000,
+                     'input:noends': 91000, 'input:stringio': 91000, 'lic:common-indent': 94000,
                      'lic:common-indent-mixed': 28000, 'lic:common-indent-space': 48000,
                      'lic:common-indent-tab': 17000, 'lic:common-indent-with-empty-line': 32000,
-                     'lists:enumerated': 2925, 'lists:files': 250000, 'lists:files:at-first-entry': 120000,
-                     'lists:files:at-last-entry': 120000, 'lists:files:at-middle-entry': 100000,
-                     'lists:files:at-only-entry': 42000, 'lists:files:fullwidth-separator': 40000,
+                     'lic:uni-astral': 14000, 'lic:uni-casefold-differs-from-lower': 25000,
+                     'lic:uni-cjk-compatibility': 17000, 'lic:uni-combining-mark': 33000,
+                     'lic:uni-hangul-jamo': 17000, 'lic:uni-inner-unicode-blank': 17000, 'lic:uni-invisible': 18000,
+                     'lic:uni-ligature-fullwidth-superscript': 26000, 'lic:uni-nfkc-differs': 46000,
+                     'lic:uni-not-nfc': 46000, 'lic:uni-not-nfd': 42000, 'lic:uni-singleton': 24000,
+                     'lic:uni-utf8-byte-0x85': 25000, 'lic:uni-utf8-byte-0xa0': 21000, 'lists:enumerated': 2925,
+                     'lists:files': 270000, 'lists:files:at-first-entry': 130000,
+                     'lists:files:at-last-entry': 130000, 'lists:files:at-middle-entry': 100000,
+                     'lists:files:at-only-entry': 44000, 'lists:files:fullwidth-separator': 40000,
                      'lists:files:internal-comma': 59000, 'lists:files:internal-semicolon': 14000,
                      'lists:files:leading-comma': 20000, 'lists:files:leading-other': 110000,
                      'lists:files:leading-semicolon': 10000, 'lists:files:lone-comma': 4500,
-                     'lists:files:lone-semicolon': 4500, 'lists:files:only-punctuation': 81000,
+                     'lists:files:lone-semicolon': 4500, 'lists:files:only-punctuation': 83000,
                      'lists:files:quote': 39000, 'lists:files:trailing-backslash': 30000,
                      'lists:files:trailing-colon': 17000, 'lists:files:trailing-comma': 46000,
                      'lists:files:trailing-dot': 37000, 'lists:files:trailing-other': 100000,
-                     'lists:files:trailing-semicolon': 24000, 'lists:files_excluded': 83000,
-                     'lists:files_included': 83000, 'lists:lines:at-first-entry': 130000,
-                     'lists:lines:at-last-entry': 130000, 'lists:lines:at-middle-entry': 76000,
-                     'lists:lines:at-only-entry': 79000, 'lists:lines:fullwidth-separator': 26000,
+                     'lists:files:trailing-semicolon': 24000, 'lists:files_excluded': 90000,
+                     'lists:files_included': 90000, 'lists:lines:at-first-entry': 140000,
+                     'lists:lines:at-last-entry': 140000, 'lists:lines:at-middle-entry': 79000,
+                     'lists:lines:at-only-entry': 83000, 'lists:lines:fullwidth-separator': 27000,
                      'lists:lines:internal-comma': 110000, 'lists:lines:internal-semicolon': 46000,
-                     'lists:lines:leading-comma': 17000, 'lists:lines:leading-other': 79000,
+                     'lists:lines:leading-comma': 17000, 'lists:lines:leading-other': 85000,
                      'lists:lines:leading-semicolon': 10000, 'lists:lines:lone-comma': 1700,
-                     'lists:lines:lone-semicolon': 1000, 'lists:lines:only-punctuation': 19000,
+                     'lists:lines:lone-semicolon': 1000, 'lists:lines:only-punctuation': 21000,
                      'lists:lines:quote': 40000, 'lists:lines:trailing-backslash': 13000,
                      'lists:lines:trailing-colon': 19000, 'lists:lines:trailing-comma': 49000,
-                     'lists:lines:trailing-dot': 25000, 'lists:lines:trailing-other': 110000,
-                     'lists:lines:trailing-semicolon': 26000, 'lists:upstream_contact': 83000,
-                     'multi:doc-with-license-paragraphs>=2': 16000, 'multi:docs:2': 3200, 'multi:docs:3': 3200,
-                     'multi:docs:4': 1500, 'multi:equal-license-in-two-documents': 7200,
-                     'multi:reused-license-object': 22000, 'perm-input:bytes': 57000, 'perm-input:keepends': 57000,
-                     'perm-input:noends': 57000, 'perm-input:stringio': 57000,
-                     'perm:all-licenses-before-all-files': 51000, 'perm:files-after-license': 150000,
-                     'perm:files-reordered-among-themselves': 130000, 'perm:license-before-first-files': 97000,
-                     'perm:license-between-files': 78000, 'perm:licenses-reordered-among-themselves': 91000}},
+                     'lists:lines:trailing-dot': 25000, 'lists:lines:trailing-other': 120000,
+                     'lists:lines:trailing-semicolon': 26000, 'lists:uni-astral': 4700,
+                     'lists:uni-casefold-differs-from-lower': 8100, 'lists:uni-cjk-compatibility': 4800,
+                     'lists:uni-combining-mark': 12000, 'lists:uni-hangul-jamo': 4700,
+                     'lists:uni-inner-unicode-blank': 1000, 'lists:uni-invisible': 6200,
+                     'lists:uni-ligature-fullwidth-superscript': 6200, 'lists:uni-nfkc-differs': 21000,
+                     'lists:uni-not-nfc': 22000, 'lists:uni-not-nfd': 20000, 'lists:uni-singleton': 7700,
+                     'lists:uni-utf8-byte-0x85': 8000, 'lists:uni-utf8-byte-0xa0': 6800,
+                     'lists:unicode:files': 21000, 'lists:unicode:files_excluded': 6900,
+                     'lists:unicode:files_included': 6900, 'lists:unicode:upstream_contact': 6900,
+                     'lists:upstream_contact': 90000, 'multi:doc-with-license-paragraphs>=2': 16000,
+                     'multi:docs:2': 3200, 'multi:docs:3': 3200, 'multi:docs:4': 1500,
+                     'multi:equal-license-in-two-documents': 7200, 'multi:reused-license-object': 22000,
+                     'perm-input:bytes': 57000, 'perm-input:keepends': 57000, 'perm-input:noends': 57000,
+                     'perm-input:stringio': 58000, 'perm:all-licenses-before-all-files': 54000,
+                     'perm:files-after-license': 160000, 'perm:files-reordered-among-themselves': 130000,
+                     'perm:license-before-first-files': 100000, 'perm:license-between-files': 80000,
+                     'perm:licenses-reordered-among-themselves': 93000, 'raw:dump-reparsed-from:binary-file': 2800,
+                     'raw:dump-reparsed-from:bytes': 2800, 'raw:dump-reparsed-from:bytes-doc': 2800,
+                     'raw:dump-reparsed-from:bytes-noends': 2700, 'raw:dump-reparsed-from:bytesio': 2800,
+                     'raw:dump-reparsed-from:keepends': 2900, 'raw:dump-reparsed-from:noends': 2800,
+                     'raw:dump-reparsed-from:str-doc': 2800, 'raw:dump-reparsed-from:stringio': 2800,
+                     'raw:dump-reparsed-from:text-file': 2800, 'raw:enumerated': 674, 'raw:enumerated:atom': 524,
+                     'raw:enumerated:marker': 150, 'raw:license-raw-decodable': 24000,
+                     'raw:license-raw-tab-or-other-marker': 14000, 'raw:marker-blank+tab': 22000,
+                     'raw:marker-blanks>=2': 23000, 'raw:marker-blanks>=4': 23000,
+                     'raw:marker-dot-after-odd-marker': 20000, 'raw:marker-in-comment': 22000,
+                     'raw:marker-in-copyright': 23000, 'raw:marker-in-disclaimer': 13000,
+                     'raw:marker-in-files': 6300, 'raw:marker-in-license': 26000, 'raw:marker-in-source': 8300,
+                     'raw:marker-in-upstream-contact': 5600, 'raw:marker-in-x-note': 5600,
+                     'raw:marker-in-x-origin': 7500, 'raw:marker-mixed-blanks-and-tabs': 26000,
+                     'raw:marker-on-last-line': 28000, 'raw:marker-one-tab': 13000, 'raw:marker-tab+blank': 19000,
+                     'raw:marker-tabs>=2': 13000, 'raw:marker-with-empty-first-line': 22000,
+                     'raw:marker-with-inner-tab': 15000, 'raw:marker-with-trailing-blank-or-tab': 27000,
+                     'raw:parsed-from:binary-file': 1600, 'raw:parsed-from:bytes': 1600,
+                     'raw:parsed-from:bytes-doc': 1600, 'raw:parsed-from:bytes-noends': 1600,
+                     'raw:parsed-from:bytesio': 1600, 'raw:parsed-from:keepends': 1600,
+                     'raw:parsed-from:noends': 1600, 'raw:parsed-from:str-doc': 1600,
+                     'raw:parsed-from:stringio': 1600, 'raw:parsed-from:text-file': 1700, 'raw:uni-astral': 17000,
+                     'raw:uni-casefold-differs-from-lower': 22000, 'raw:uni-cjk-compatibility': 18000,
+                     'raw:uni-combining-mark': 25000, 'raw:uni-hangul-jamo': 18000,
+                     'raw:uni-inner-unicode-blank': 19000, 'raw:uni-invisible': 20000,
+                     'raw:uni-ligature-fullwidth-superscript': 21000, 'raw:uni-nfkc-differs': 27000,
+                     'raw:uni-not-nfc': 27000, 'raw:uni-not-nfd': 27000, 'raw:uni-singleton': 22000,
+                     'raw:uni-utf8-byte-0x85': 22000, 'raw:uni-utf8-byte-0xa0': 21000, 'raw:via:data': 11000,
+                     'raw:via:text': 16000, 'uni:documents': 21000, 'uni:first-input:binary-file': 2900,
+                     'uni:first-input:bytes': 800, 'uni:first-input:bytes-doc': 2900,
+                     'uni:first-input:bytes-noends': 2900, 'uni:first-input:bytesio': 2800,
+                     'uni:first-input:keepends': 860, 'uni:first-input:noends': 830, 'uni:first-input:str-doc': 2900,
+                     'uni:first-input:stringio': 870, 'uni:first-input:text-file': 2900}},
 }
 
 # ---------------------------------------------------------------------------
@@ -4675,12 +4742,16 @@ LEVEL_TEXT = ('Runtime monitoring: seeded specs of copyright documents (header f
               'field-like/comment-like/dot lines; pattern lists beyond 80/120 columns, single patterns beyond 80 '
               'characters, hyphenated patterns) are built through the public API of the live tree, dumped, parsed back '
               'in strict mode from four input forms, and every value of every re-parsed paragraph is compared with the '
-              'value the generator wrote (10000 documents quick / 560000 thorough); the re-dump must be identical.  The '
+              'value the generator wrote (9000 documents quick / 560000 thorough); the re-dump must be identical.  The '
               'multiline codec and License.to_str/from_str are driven with 2e5 / 1.12e7 random line lists plus all '
               '16105 lists of length <= 4 over an 11-line alphabet, judged only inside the stated precondition.  '
               'Header Format values other than the canonical URL (every fixed value x every way of giving it, plus '
               'seeded ones) and URL-ish header values are judged against the module\'s own model of the documented '
-              'fix-up.  Held-on-observed, not a proof: reach is the generated documents and lists.')
+              'fix-up.  Text values with non-normalised Unicode (decomposed sequences, singletons, compatibility '
+              'ideographs, Hangul jamo, ligatures / full-width / superscripts) and raw multi-line values whose continuation '
+              'lines start with a TAB, several blanks or blank+tab go through the API and through raw field text, are '
+              'fed back in ten input forms (str / utf-8 bytes lines and documents, streams, real files) and must come '
+              'back code point for code point.  Held-on-observed, not a proof: reach is the generated documents and lists.')
 LEVEL_NOTE = ('Trusted: CPython, the spec generator and its own Deb822 value encoder for raw fields, the domain '
               'predicates (texts end in a non-blank line, no whitespace-only or lone-"." line, only \\n as line '
               'boundary, no outer blanks on first lines). Paragraph order is taken from the built document by object '
